@@ -8,10 +8,13 @@ C15  Breeding-value matrices round-trip through scaling without loss
                 values.unscale() (or a raw array), the result is re-standardised by from_numpy
                 "taxon selection, deletion, insertion, adjoining ... preserve every retained taxon's raw values"
   R3-restore    every method that edits the stored matrix along the taxa axis re-standardises (or is a permutation)
+  R5-setter     the location / scale setters store the array they are handed (a scalar is broadcast): from_numpy standardised with exactly that array
   R4-statistics tmax/tmin = extremum*scale + location, trange = ptp*scale, tmean -> location, tstd -> scale, tvar -> scale^2 when unscale;
                 arg-extrema on the stored matrix "every per-trait summary ... requested on the original scale equals that summary of the raw values"
 """
 import ast
+
+from sa.ctorflow import wire
 
 from sa import fields as F
 from sa.fields import Eval, Unrecognised, is_term, leaves, term_str, NONE, ABSENT
@@ -393,17 +396,101 @@ def check_stat_purity(prog, rep):
     rep.floor("R5-purity", 6)
 
 
+SCALED_BASE = ("pybrops.core.mat.DenseScaledMatrix", "DenseScaledMatrix")
+
+
+def check_setters(prog, rep, K):
+    """R5-setter: the constructor hands from_numpy's location / scale to the property setters; the stored matrix was centred and divided with exactly those
+    arrays, so `unscale` is the inverse only if the setter stores the array it is given.  On every path of the setter the parameter may be rebound only by
+    broadcasting a scalar (`numpy.repeat(value, n)` / `numpy.full(n, value)`, in a branch that is not the ndarray branch), and what is stored is the parameter
+    (or a plain copy of it)."""
+    for name in ("location", "scale"):
+        P = prog.lookup_prop(K, name)
+        f = P.setter if P is not None else None
+        construct = "%s.%s.setter" % (K.qualname, name)
+        if f is None:
+            rep.unrec("R5-setter", construct, "setter vanished")
+            continue
+        rep.saw(f)
+        ps = f.params()
+        if len(ps) != 2:
+            rep.unrec("R5-setter", construct, "setter signature not (self, value)")
+            continue
+        v = ps[1]
+        good = True
+        stores = []
+
+        def walk(stmts, in_array_branch):
+            nonlocal good
+            for st in stmts:
+                if isinstance(st, ast.If):
+                    t = "".join(dump(st.test).split())
+                    arr = "ndarray" in t and "isinstance(%s" % v in t and not t.startswith("not")
+                    walk(st.body, in_array_branch or arr)
+                    walk(st.orelse, in_array_branch)
+                    continue
+                if isinstance(st, (ast.For, ast.While, ast.With, ast.Try)):
+                    if any(isinstance(n, ast.Name) and n.id == v and isinstance(n.ctx, ast.Store) for n in ast.walk(st)) or "self._%s" % name in dump(st):
+                        rep.unrec("R5-setter", construct, "value handled inside a %s statement" % type(st).__name__)
+                        good = False
+                    continue
+                tg = st.targets if isinstance(st, ast.Assign) else ([st.target] if isinstance(st, (ast.AugAssign, ast.AnnAssign)) else [])
+                for t_ in tg:
+                    base = t_
+                    while isinstance(base, (ast.Subscript, ast.Attribute)) and not (isinstance(base, ast.Attribute) and dump(base.value) == "self"):
+                        base = base.value
+                    if isinstance(base, ast.Name) and base.id == v:
+                        val = st.value
+                        bcast = (isinstance(t_, ast.Name) and isinstance(st, ast.Assign) and isinstance(val, ast.Call)
+                                 and ((prog.dotted(f.module, val.func) == "numpy.repeat" and val.args and dump(val.args[0]) == v)
+                                      or (prog.dotted(f.module, val.func) == "numpy.full" and len(val.args) >= 2 and dump(val.args[1]) == v)))
+                        conv = (isinstance(t_, ast.Name) and isinstance(st, ast.Assign) and isinstance(val, ast.Call) and len(val.args) == 1 and dump(val.args[0]) == v
+                                and prog.dotted(f.module, val.func) in ("numpy.asarray", "numpy.array", "numpy.ascontiguousarray", "numpy.copy"))
+                        if bcast and not in_array_branch:
+                            continue
+                        if conv:
+                            continue
+                        if in_array_branch or not isinstance(t_, ast.Name) or isinstance(st, ast.AugAssign):
+                            rep.violate("R5-setter", construct, "the %s array handed to the setter is altered before it is stored (%s): the stored matrix was standardised with the "
+                                        "array as given, so unscale() no longer reproduces the raw values" % (name, dump(st)[:70]), where(f, st), "self._%s = %s" % (name, v), dump(st)[:70])
+                        else:
+                            rep.unrec("R5-setter", construct, "parameter rebound by %s" % dump(st)[:60])
+                        good = False
+                    elif isinstance(t_, ast.Attribute) and dump(t_) == "self._%s" % name:
+                        stores.append(st)
+        walk(body_nodoc(f.node), False)
+        if len(stores) != 1:
+            rep.unrec("R5-setter", construct, "expected one store to self._%s, found %d" % (name, len(stores)))
+            continue
+        sv = stores[0].value
+        plain = dump(sv) == v or (isinstance(sv, ast.Call) and ((isinstance(sv.func, ast.Attribute) and sv.func.attr == "copy" and dump(sv.func.value) == v and not sv.args)
+                                                                or (len(sv.args) == 1 and dump(sv.args[0]) == v and prog.dotted(f.module, sv.func) in
+                                                                    ("numpy.asarray", "numpy.array", "numpy.copy", "copy.copy", "copy.deepcopy", "numpy.ascontiguousarray"))))
+        if not plain:
+            if any(isinstance(n, ast.Name) and n.id == v for n in ast.walk(sv)):
+                rep.violate("R5-setter", construct, "the setter stores %s, not the %s it is given: the stored matrix was standardised with the array as given" % (dump(sv)[:60], name),
+                            where(f, stores[0]), "self._%s = %s" % (name, v), dump(sv)[:60])
+            else:
+                rep.unrec("R5-setter", construct, "stored value %s not traced to the parameter" % dump(sv)[:60])
+            continue
+        if good:
+            rep.ok("R5-setter", construct, "stores the array it is given (a scalar is broadcast first)")
+
+
 def run(prog, rep, tier):
     rep.explanation = ("Algebraic normal-form proof that unscale o from_numpy is the identity (with the 0 -> 1 scale substitution ahead of the division and a two-pass "
                        "standard deviation), RAW/SCALED unit typing of the taxa operations through the field-flow evaluator, invariant restoration of mutators, "
                        "and spec congruence of the back-transformed statistics.")
     rep.not_decided = ["NaN propagation inside numpy reductions", "the constant-trait corner of tstd/tvar(unscale=True) (returns the substituted 1; raw std is 0)"]
-    for r, n in (("R1-inverse", 1), ("R2-units", 10), ("R3-restore", 9), ("R4-statistics", 20)):
+    for r, n in (("R1-inverse", 1), ("R2-units", 10), ("R3-restore", 9), ("R4-statistics", 20), ("R5-setter", 8)):
         rep.floor(r, n)
     for mod, cname in BV:
         K = prog.get_class(cname, mod)
         check_inverse(prog, rep, K)
         check_units(prog, rep, K)
         check_statistics(prog, rep, K)
+        check_setters(prog, rep, K)
+    check_setters(prog, rep, prog.get_class(SCALED_BASE[1], SCALED_BASE[0]))
     check_guard_order(prog, rep)
     check_stat_purity(prog, rep)
+    wire(prog, rep, "C15", 3, 50)
